@@ -204,6 +204,9 @@ func genRe(rng *rand.Rand, d int) *Sx {
 // (route (seg OPT el...)...)   el ::= (id xHEX) | (bind xHEX) | (params (p xNAME (lit xHEX)|(re xSRC))...)
 
 func routeText(r *Sx) string {
+	if r.Tag() == "text" { // a raw route text
+		return r.Args()[0].Bytes()
+	}
 	var sb strings.Builder
 	for _, s := range r.Args() {
 		sb.WriteByte('/')
@@ -518,7 +521,7 @@ func (g *routerGen) methodSpec() *Sx {
 
 func (g *routerGen) headerPairs() []*Sx {
 	rng := g.rng
-	names := []string{"X-K", "User-Agent", "Accept"}
+	names := []string{"X-K", "User-Agent", "Accept", "x-k", "X-k", "USER-AGENT"} // a name is looked up in its canonical form
 	var out []*Sx
 	used := map[string]bool{}
 	for k := rng.Intn(3); k > 0; k-- {
@@ -591,6 +594,15 @@ func genRouter(profile string) func(rng *rand.Rand, n int, tier string, emit fun
 					if rng.Intn(2) == 0 && policy == "rebuild" {
 						ms = T("list", X([]string{"GET,POST", "PUT, DELETE", "GET,", ",GET", "GET,,POST", "GET POST", "PATCH ,HEAD"}[rng.Intn(7)]))
 					}
+				}
+				if profile == "C08" && policy == "rebuild" && rng.Intn(8) == 0 && !strings.Contains(routeText(r), ": /") {
+					// the text of the route with one character inserted: the grammar decides (blanks are allowed only
+					// around names and values inside braces, and only the space character after ':' and ',')
+					txt := routeText(r)
+					at := rng.Intn(len(txt) + 1)
+					ins := []string{"\t", " ", "\n", "?", "{", "}", ",", ":", "*", "\r"}[rng.Intn(10)]
+					ops = append(ops, T("reg", ms, T("text", X(txt[:at]+ins+txt[at:]))))
+					continue
 				}
 				ops = append(ops, T("reg", ms, r))
 				accepted = append(accepted, r)
@@ -701,13 +713,19 @@ type routerRun struct {
 	routes []*flamego.Route // by registration index (nil when rejected)
 	hit    *Sx
 	chains int
+	inCtx  func(c flamego.Context) // run inside the not-found chain of the next request, with its Context
 }
 
 func newRouterRun() *routerRun {
 	rr := &routerRun{}
 	rr.f = flamego.NewWithLogger(io.Discard)
 	rr.f.Use(func(c flamego.Context) { rr.chains++ })
-	rr.f.NotFound(func(c flamego.Context) { rr.hit = T("notfound") })
+	rr.f.NotFound(func(c flamego.Context) {
+		rr.hit = T("notfound")
+		if rr.inCtx != nil {
+			rr.inCtx(c)
+		}
+	})
 	return rr
 }
 
@@ -830,6 +848,31 @@ func runRouter(in *Sx) *Sx {
 				for _, x := range a[1].Args() {
 					pairs = append(pairs, x.Bytes())
 				}
+				if len(a) > 2 {
+					// through the Context of a request, after another build of the same route with other values in the
+					// same request: every build substitutes its own values
+					other := append([]string{}, pairs...)
+					for i := 1; i < len(other); i += 2 {
+						other[i] = "zz"
+					}
+					var got string
+					var pan interface{}
+					rr.inCtx = func(c flamego.Context) {
+						defer func() { pan = recover() }()
+						func() {
+							defer func() { _ = recover() }()
+							_ = c.URLPath(a[0].Bytes(), other...)
+						}()
+						got = c.URLPath(a[0].Bytes(), pairs...)
+					}
+					rr.f.ServeHTTP(&wireWriter{hdr: http.Header{}}, &http.Request{Method: "URLCTX", URL: &url.URL{Path: "/"}, Header: http.Header{}, Proto: "HTTP/1.1"})
+					rr.inCtx = nil
+					if pan != nil {
+						panic(pan)
+					}
+					res = T("s", X(got))
+					return
+				}
 				res = T("s", X(rr.f.URLPath(a[0].Bytes(), pairs...)))
 			}()
 			outs = append(outs, res)
@@ -845,7 +888,10 @@ func runRouter(in *Sx) *Sx {
 						hdr.Set(h.Args()[0].Bytes(), h.Args()[1].Bytes())
 					}
 				}
-				req := &http.Request{Method: a[0].Bytes(), URL: &url.URL{Path: a[1].Bytes()}, Header: hdr, Proto: "HTTP/1.1"}
+				req := &http.Request{Method: a[0].Bytes(), URL: &url.URL{Path: a[1].Bytes()}, Header: hdr, Proto: "HTTP/1.1", Host: "example.com"}
+				if len(hdr) == 0 && len(a[1].Bytes())%2 == 1 {
+					req.Header = nil // a hand-built request may have no header map at all: reading it is fine, routing never writes it
+				}
 				w := &wireWriter{hdr: http.Header{}}
 				var res *Sx
 				func() {
@@ -964,7 +1010,11 @@ func genC12(rng *rand.Rand, n int, tier string, emit func(*Sx)) {
 			if rng.Intn(15) == 0 { // odd number of arguments
 				pairs = append(pairs, X("dangling"))
 			}
-			ops = append(ops, T("url", X(nm), T("pairs", pairs...)))
+			if rng.Intn(3) == 0 {
+				ops = append(ops, T("url", X(nm), T("pairs", pairs...), T("ctx")))
+			} else {
+				ops = append(ops, T("url", X(nm), T("pairs", pairs...)))
+			}
 			// requests whose parameters are then fed back (checked by the model)
 			if rng.Intn(2) == 0 {
 				if nm != "" {
